@@ -1,1 +1,1337 @@
-fn main(){}
+//! C06 — scalars are interpreted exactly per requested type and options; never wrapped.
+//!
+//! Independent reference model (vcore::refscalar, no serde-saphyr code involved):
+//! for every cell (scalar text, style, tag, position, target type, option vector)
+//! the oracle computes an *expectation*
+//!
+//!   * `ok`  — the set of values the library may return (the natural value(s));
+//!   * `err` — whether rejecting is allowed;
+//!
+//! and the library's `Ok(v)` / `Err` is judged against it. Expectations are
+//! *definite* (exactly one allowed outcome: documented token that fits → that
+//! value; no natural reading → Err; quoted scalar into a string target → the
+//! text verbatim …) or *unspecified* (several outcomes allowed; counted, still
+//! checked: an `Ok(v)` outside the set is a violation — that is where wrapped,
+//! saturated and truncated integers show up whatever the acceptance policy is).
+//!
+//! The scalar of every generated document is confirmed with the raw parser
+//! (value, style, tag) before any verdict is taken.
+
+use serde::Deserialize;
+use serde::de::{DeserializeOwned, Deserializer, Visitor};
+use serde_json::{Value, json};
+use serde_saphyr::{Error, Options};
+use std::collections::BTreeMap;
+use vcore::refscalar::{
+    self as rs, B64, Inferred, Tri, b64_encode, ref_b64, ref_bool, ref_char, ref_float, ref_int, ref_null, ref_null_option,
+    ref_plain_is_ambiguous, ref_untyped_plain,
+};
+use vcore::reftree::{self, RNode, render_checked};
+use vcore::rng::{Rng, fnv_parts};
+use vcore::run::{Finish, Run, Tier, par_range};
+use vcore::scalarcorpus::{self, Family, Token};
+use vcore::targets::Bytes;
+use vcore::val::Val;
+use vcore::ydoc::{Node, RenderOpts, Style};
+
+// ------------------------------------------------------------------ cell coordinates
+
+#[derive(Clone, Copy, Debug, PartialEq, Eq)]
+enum TagC {
+    None,
+    Int,
+    Float,
+    Bool,
+    Null,
+    Str,
+    Binary,
+    NonSpecific,
+    Custom,
+}
+
+const TAGS: &[(TagC, Option<&str>)] = &[
+    (TagC::None, None),
+    (TagC::Str, Some("!!str")),
+    (TagC::Binary, Some("!!binary")),
+    (TagC::Int, Some("!!int")),
+    (TagC::Float, Some("!!float")),
+    (TagC::Bool, Some("!!bool")),
+    (TagC::Null, Some("!!null")),
+    (TagC::NonSpecific, Some("!")),
+    (TagC::Custom, Some("!custom")),
+];
+
+fn tag_name(t: TagC) -> &'static str {
+    TAGS.iter().find(|(c, _)| *c == t).and_then(|(_, s)| *s).unwrap_or("")
+}
+
+fn tag_of_source(s: Option<&str>) -> Option<TagC> {
+    match s {
+        None => Some(TagC::None),
+        Some(s) => TAGS.iter().find(|(_, n)| *n == Some(s)).map(|(c, _)| *c),
+    }
+}
+
+const STYLES: &[Style] = &[Style::Plain, Style::Double, Style::Single, Style::Literal, Style::Folded];
+
+fn style_name(s: Style) -> &'static str {
+    match s {
+        Style::Plain => "plain",
+        Style::Single => "single",
+        Style::Double => "double",
+        Style::Literal => "literal",
+        Style::Folded => "folded",
+    }
+}
+
+#[derive(Clone, Copy, Debug, PartialEq, Eq)]
+enum Pos {
+    Root,
+    Seq,
+    Map,
+}
+const POSITIONS: &[Pos] = &[Pos::Root, Pos::Seq, Pos::Map];
+fn pos_name(p: Pos) -> &'static str {
+    match p {
+        Pos::Root => "root",
+        Pos::Seq => "seq",
+        Pos::Map => "map",
+    }
+}
+
+#[derive(Clone, Copy, Debug, PartialEq, Eq)]
+enum Base {
+    I(u32),
+    U(u32),
+    F32,
+    F64,
+    Bool,
+    Char,
+    String,
+    ViaStr,
+    Bytes,
+    Val,
+}
+
+#[derive(Clone, Copy, Debug)]
+struct Tgt {
+    name: &'static str,
+    base: Base,
+    opt: bool,
+}
+
+const TARGETS: &[Tgt] = &[
+    Tgt { name: "i8", base: Base::I(8), opt: false },
+    Tgt { name: "i16", base: Base::I(16), opt: false },
+    Tgt { name: "i32", base: Base::I(32), opt: false },
+    Tgt { name: "i64", base: Base::I(64), opt: false },
+    Tgt { name: "i128", base: Base::I(128), opt: false },
+    Tgt { name: "u8", base: Base::U(8), opt: false },
+    Tgt { name: "u16", base: Base::U(16), opt: false },
+    Tgt { name: "u32", base: Base::U(32), opt: false },
+    Tgt { name: "u64", base: Base::U(64), opt: false },
+    Tgt { name: "u128", base: Base::U(128), opt: false },
+    Tgt { name: "f32", base: Base::F32, opt: false },
+    Tgt { name: "f64", base: Base::F64, opt: false },
+    Tgt { name: "bool", base: Base::Bool, opt: false },
+    Tgt { name: "char", base: Base::Char, opt: false },
+    Tgt { name: "String", base: Base::String, opt: false },
+    Tgt { name: "via_deserialize_str", base: Base::ViaStr, opt: false },
+    Tgt { name: "Bytes", base: Base::Bytes, opt: false },
+    Tgt { name: "Val", base: Base::Val, opt: false },
+    Tgt { name: "Option<i64>", base: Base::I(64), opt: true },
+    Tgt { name: "Option<u8>", base: Base::U(8), opt: true },
+    Tgt { name: "Option<f64>", base: Base::F64, opt: true },
+    Tgt { name: "Option<bool>", base: Base::Bool, opt: true },
+    Tgt { name: "Option<String>", base: Base::String, opt: true },
+];
+
+fn family_of(base: Base) -> &'static str {
+    match base {
+        Base::I(_) | Base::U(_) => "int",
+        Base::F32 | Base::F64 => "float",
+        Base::Bool => "bool",
+        Base::Char => "char",
+        Base::String => "string",
+        Base::ViaStr => "str",
+        Base::Bytes => "bytes",
+        Base::Val => "untyped",
+    }
+}
+
+fn relevant(t: &Tgt, fam: Family) -> bool {
+    let b = match t.base {
+        Base::I(_) | Base::U(_) => fam == Family::Int,
+        Base::F32 | Base::F64 => matches!(fam, Family::Float | Family::Int),
+        Base::Bool => fam == Family::Bool,
+        Base::Char => fam == Family::Char,
+        Base::Bytes => fam == Family::B64,
+        Base::String | Base::ViaStr | Base::Val => true,
+    };
+    b || (t.opt && fam == Family::Null)
+}
+
+/// option vector: bit0 strict_booleans, bit1 no_schema, bit2 legacy_octal_numbers, bit3 ignore_binary_tag_for_string
+fn mk_opts(bits: u8) -> Options {
+    let mut o = vcore::errs::unlimited_options();
+    #[allow(deprecated)]
+    {
+        o.strict_booleans = bits & 1 != 0;
+        o.no_schema = bits & 2 != 0;
+        o.legacy_octal_numbers = bits & 4 != 0;
+        o.ignore_binary_tag_for_string = bits & 8 != 0;
+        o.angle_conversions = false;
+        o.with_snippet = false;
+    }
+    o
+}
+
+/// The option bits the *oracle* of a target family reads (the library is run with the
+/// full vector, so an option that influences a family it should not shows up as a violation).
+fn oracle_option_mask(base: Base) -> u8 {
+    match base {
+        Base::I(_) | Base::U(_) => 4,
+        Base::F32 | Base::F64 | Base::Bytes => 0,
+        Base::Bool => 1,
+        Base::Char | Base::ViaStr => 1 | 2,
+        Base::String => 1 | 2 | 8,
+        Base::Val => 1 | 4 | 8,
+    }
+}
+
+#[derive(Clone, Copy)]
+struct Ob {
+    strict: bool,
+    no_schema: bool,
+    legacy: bool,
+    ignore_bin: bool,
+}
+fn ob(bits: u8) -> Ob {
+    Ob { strict: bits & 1 != 0, no_schema: bits & 2 != 0, legacy: bits & 4 != 0, ignore_bin: bits & 8 != 0 }
+}
+
+// ------------------------------------------------------------------ values
+
+#[derive(Clone, Debug, PartialEq)]
+enum Got {
+    I(i128),
+    U(u128),
+    F32(u32),
+    F64(u64),
+    B(bool),
+    C(char),
+    S(String),
+    Y(Vec<u8>),
+    V(Val),
+    /// Option::None
+    N,
+}
+
+/// String through `Deserializer::deserialize_str` (what `&str` / `Cow<str>` use).
+#[derive(Debug)]
+struct ViaStr(String);
+impl<'de> Deserialize<'de> for ViaStr {
+    fn deserialize<D: Deserializer<'de>>(d: D) -> Result<ViaStr, D::Error> {
+        struct V;
+        impl<'de> Visitor<'de> for V {
+            type Value = String;
+            fn expecting(&self, f: &mut std::fmt::Formatter) -> std::fmt::Result {
+                f.write_str("a string")
+            }
+            fn visit_str<E>(self, v: &str) -> Result<String, E> {
+                Ok(v.to_string())
+            }
+            fn visit_string<E>(self, v: String) -> Result<String, E> {
+                Ok(v)
+            }
+        }
+        d.deserialize_str(V).map(ViaStr)
+    }
+}
+
+fn fetch<T: DeserializeOwned>(doc: &str, pos: Pos, o: Options) -> Result<Option<T>, Error> {
+    match pos {
+        Pos::Root => serde_saphyr::from_str_with_options::<T>(doc, o).map(Some),
+        Pos::Seq => serde_saphyr::from_str_with_options::<Vec<T>>(doc, o).map(|mut v| if v.len() == 1 { v.pop() } else { None }),
+        Pos::Map => serde_saphyr::from_str_with_options::<BTreeMap<String, T>>(doc, o)
+            .map(|mut m| if m.len() == 1 { m.remove("k") } else { None }),
+    }
+}
+
+/// Run the real code for one cell. `Ok(None)` = the container did not have the
+/// expected single entry (not a C06 matter; inconclusive).
+fn run_lib(t: &Tgt, doc: &str, pos: Pos, o: Options) -> Result<Option<Got>, Error> {
+    macro_rules! go {
+        ($ty:ty, $conv:expr) => {
+            if t.opt {
+                fetch::<Option<$ty>>(doc, pos, o).map(|x| {
+                    x.map(|ov| match ov {
+                        None => Got::N,
+                        Some(v) => $conv(v),
+                    })
+                })
+            } else {
+                fetch::<$ty>(doc, pos, o).map(|x| x.map($conv))
+            }
+        };
+    }
+    match t.base {
+        Base::I(8) => go!(i8, |v| Got::I(v as i128)),
+        Base::I(16) => go!(i16, |v| Got::I(v as i128)),
+        Base::I(32) => go!(i32, |v| Got::I(v as i128)),
+        Base::I(64) => go!(i64, |v| Got::I(v as i128)),
+        Base::I(_) => go!(i128, Got::I),
+        Base::U(8) => go!(u8, |v| Got::U(v as u128)),
+        Base::U(16) => go!(u16, |v| Got::U(v as u128)),
+        Base::U(32) => go!(u32, |v| Got::U(v as u128)),
+        Base::U(64) => go!(u64, |v| Got::U(v as u128)),
+        Base::U(_) => go!(u128, Got::U),
+        Base::F32 => go!(f32, |v| Got::F32(rs::norm_f32(v))),
+        Base::F64 => go!(f64, |v| Got::F64(rs::norm_f64(v))),
+        Base::Bool => go!(bool, Got::B),
+        Base::Char => go!(char, Got::C),
+        Base::String => go!(String, Got::S),
+        Base::ViaStr => go!(ViaStr, |v: ViaStr| Got::S(v.0)),
+        Base::Bytes => go!(Bytes, |v: Bytes| Got::Y(v.0)),
+        Base::Val => go!(Val, Got::V),
+    }
+}
+
+fn show_got(g: &Got) -> String {
+    match g {
+        Got::F32(b) => format!("f32:{:?} (bits {b:#x})", f32::from_bits(*b)),
+        Got::F64(b) => format!("f64:{:?} (bits {b:#x})", f64::from_bits(*b)),
+        Got::V(v) => format!("Val {v}"),
+        other => format!("{other:?}"),
+    }
+}
+
+// ------------------------------------------------------------------ expectation
+
+struct Sc<'a> {
+    value: &'a str,
+    style: Style,
+    tag: TagC,
+}
+
+#[derive(Debug)]
+struct Expect {
+    ok: Vec<Got>,
+    /// any Ok value is acceptable (class without a model)
+    any_ok: bool,
+    err: bool,
+    class: &'static str,
+}
+
+impl Expect {
+    fn must(g: Got, class: &'static str) -> Expect {
+        Expect { ok: vec![g], any_ok: false, err: false, class }
+    }
+    fn must_err(class: &'static str) -> Expect {
+        Expect { ok: vec![], any_ok: false, err: true, class }
+    }
+    fn one_of(ok: Vec<Got>, err: bool, class: &'static str) -> Expect {
+        Expect { ok, any_ok: false, err, class }
+    }
+    fn any(class: &'static str) -> Expect {
+        Expect { ok: vec![], any_ok: true, err: true, class }
+    }
+    fn definite(&self) -> bool {
+        !self.any_ok && ((self.ok.len() == 1 && !self.err) || (self.ok.is_empty() && self.err))
+    }
+}
+
+fn inferred_to_val(i: &Inferred) -> Val {
+    match i {
+        Inferred::Null => Val::Null,
+        Inferred::Bool(b) => Val::Bool(*b),
+        Inferred::Int(v) => Val::Int(*v),
+        Inferred::Float(bits) => Val::F(*bits),
+        Inferred::Str(s) => Val::Str(s.clone()),
+    }
+}
+
+/// Must a plain untagged scalar with this text be quoted under `no_schema`?
+fn ambiguity(value: &str, o: Ob) -> Tri<()> {
+    match ref_plain_is_ambiguous(value) {
+        Tri::Yes(()) => {
+            // a YAML-1.1-only boolean is not "parseable as a boolean" when strict_booleans is on,
+            // and a token documented only through the legacy-octal rule is lenient without it
+            if o.strict && ref_bool(value, true).is_no() && !ref_bool(value, false).is_no() {
+                Tri::Maybe(())
+            } else {
+                Tri::Yes(())
+            }
+        }
+        other => other,
+    }
+}
+
+fn decoded_utf8(value: &str) -> Option<Result<String, ()>> {
+    match ref_b64(value) {
+        B64::Valid(b) => Some(String::from_utf8(b).map_err(|_| ())),
+        _ => None,
+    }
+}
+
+fn expect_base(base: Base, sc: &Sc, o: Ob) -> Expect {
+    let plain = sc.style == Style::Plain;
+    let quoted = matches!(sc.style, Style::Single | Style::Double);
+    let block = matches!(sc.style, Style::Literal | Style::Folded);
+    match base {
+        // ------------------------------------------------ integers
+        Base::I(bits) | Base::U(bits) => {
+            let signed_t = matches!(base, Base::I(_));
+            let Some(r) = ref_int(sc.value, o.legacy) else {
+                return Expect::must_err("int:no-reading");
+            };
+            let cands: Vec<Got> = if signed_t {
+                r.signed_candidates(bits).into_iter().map(Got::I).collect()
+            } else {
+                r.unsigned_candidates(bits).into_iter().map(Got::U).collect()
+            };
+            if cands.is_empty() {
+                return Expect::must_err("int:out-of-range");
+            }
+            let doc_ok = r.documented
+                && r.alternative.is_none()
+                && plain
+                && matches!(sc.tag, TagC::None | TagC::Int)
+                && (signed_t || !r.negative);
+            if doc_ok {
+                Expect::must(cands[0].clone(), "int:documented-fits")
+            } else {
+                Expect::one_of(cands, true, "int:lenient-spelling-or-context")
+            }
+        }
+        // ------------------------------------------------ floats
+        Base::F32 | Base::F64 => {
+            let Some(fr) = ref_float(sc.value) else {
+                if ref_int(sc.value, o.legacy).is_some() || ref_int(sc.value, !o.legacy).is_some() {
+                    return Expect::any("float:integer-only-spelling");
+                }
+                return Expect::must_err("float:no-reading");
+            };
+            let g = if base == Base::F32 { Got::F32(fr.f32_bits()) } else { Got::F64(fr.f64_bits()) };
+            if fr.documented && plain && matches!(sc.tag, TagC::None | TagC::Float) {
+                Expect::must(g, "float:documented")
+            } else {
+                Expect::one_of(vec![g], true, "float:lenient-spelling-or-context")
+            }
+        }
+        // ------------------------------------------------ bool
+        Base::Bool => match ref_bool(sc.value, o.strict) {
+            Tri::Yes(b) if plain && matches!(sc.tag, TagC::None | TagC::Bool) => Expect::must(Got::B(b), "bool:documented"),
+            Tri::Yes(b) | Tri::Maybe(b) => Expect::one_of(vec![Got::B(b)], true, "bool:lenient-spelling-or-context"),
+            Tri::No => Expect::must_err("bool:no-reading"),
+        },
+        // ------------------------------------------------ char
+        Base::Char => {
+            if sc.tag == TagC::Binary {
+                return Expect::any("char:binary-tag");
+            }
+            let Some(c) = ref_char(sc.value) else {
+                return Expect::must_err("char:not-single-scalar-value");
+            };
+            let nullp = ref_null(sc.value, Style::Plain);
+            let amb = ambiguity(sc.value, o);
+            let soft = Expect::one_of(vec![Got::C(c)], true, "char:tag-or-style-context");
+            match sc.tag {
+                TagC::None | TagC::Str => {
+                    if quoted {
+                        return Expect::must(Got::C(c), "char:quoted");
+                    }
+                    let awkward = !nullp.is_no() || (o.no_schema && !amb.is_no());
+                    if block {
+                        return if awkward { soft } else { Expect::must(Got::C(c), "char:block") };
+                    }
+                    // plain
+                    if sc.tag == TagC::Str {
+                        return if awkward { soft } else { Expect::must(Got::C(c), "char:plain") };
+                    }
+                    if nullp.is_yes() {
+                        return Expect::must_err("char:plain-null");
+                    }
+                    if !nullp.is_no() {
+                        return soft;
+                    }
+                    if o.no_schema {
+                        match amb {
+                            Tri::Yes(()) => return Expect::must_err("char:no-schema-needs-quoting"),
+                            Tri::Maybe(()) => return soft,
+                            Tri::No => {}
+                        }
+                    }
+                    Expect::must(Got::C(c), "char:plain")
+                }
+                _ => soft,
+            }
+        }
+        // ------------------------------------------------ String (deserialize_string)
+        Base::String => {
+            let nullp = ref_null(sc.value, sc.style);
+            let amb = if plain { ambiguity(sc.value, o) } else { Tri::No };
+            let verbatim = Got::S(sc.value.to_string());
+            let soft = |class| Expect::one_of(vec![Got::S(sc.value.to_string())], true, class);
+            match sc.tag {
+                TagC::Binary if !o.ignore_bin => {
+                    if plain && (!nullp.is_no() || (o.no_schema && !amb.is_no())) {
+                        return Expect::any("string:binary-plain-null-or-ambiguous");
+                    }
+                    match ref_b64(sc.value) {
+                        B64::Valid(b) => match String::from_utf8(b) {
+                            Ok(s) => Expect::must(Got::S(s), "string:binary-decoded"),
+                            Err(_) => Expect::must_err("string:binary-not-utf8"),
+                        },
+                        B64::Invalid(_) => Expect::must_err("string:binary-invalid-base64"),
+                        B64::Unspecified(_) => Expect::any("string:binary-unspecified-blank"),
+                    }
+                }
+                TagC::None | TagC::Binary => {
+                    if quoted {
+                        return Expect::must(verbatim, "string:quoted-verbatim");
+                    }
+                    if block {
+                        return if sc.value.is_empty() { soft("string:empty-block") } else { Expect::must(verbatim, "string:block-verbatim") };
+                    }
+                    match nullp {
+                        Tri::Yes(()) => return Expect::must_err("string:plain-null"),
+                        Tri::Maybe(()) => return soft("string:plain-null-other-casing"),
+                        Tri::No => {}
+                    }
+                    if o.no_schema {
+                        match amb {
+                            Tri::Yes(()) => return Expect::must_err("string:no-schema-needs-quoting"),
+                            Tri::Maybe(()) => return soft("string:no-schema-lenient-spelling"),
+                            Tri::No => {}
+                        }
+                    }
+                    Expect::must(verbatim, "string:plain-verbatim")
+                }
+                TagC::Str => {
+                    if quoted || (block && !sc.value.is_empty()) {
+                        return Expect::must(verbatim, "string:str-tag-verbatim");
+                    }
+                    if !nullp.is_no() || (o.no_schema && !amb.is_no()) || block {
+                        return soft("string:str-tag-null-or-ambiguous");
+                    }
+                    Expect::must(verbatim, "string:str-tag-verbatim")
+                }
+                TagC::NonSpecific | TagC::Custom => soft("string:application-tag"),
+                TagC::Int | TagC::Float | TagC::Bool | TagC::Null => soft("string:core-non-string-tag"),
+            }
+        }
+        // ------------------------------------------------ deserialize_str
+        Base::ViaStr => {
+            let nullp = ref_null(sc.value, sc.style);
+            let amb = if plain { ambiguity(sc.value, o) } else { Tri::No };
+            let verbatim = Got::S(sc.value.to_string());
+            let soft = |class| Expect::one_of(vec![Got::S(sc.value.to_string())], true, class);
+            match sc.tag {
+                TagC::None | TagC::Str => {
+                    if quoted || (block && !sc.value.is_empty()) {
+                        return Expect::must(verbatim, "str:non-plain-verbatim");
+                    }
+                    if block {
+                        return soft("str:empty-block");
+                    }
+                    if sc.tag == TagC::None && nullp.is_yes() {
+                        return Expect::must_err("str:plain-null");
+                    }
+                    if !nullp.is_no() || (o.no_schema && !amb.is_no()) {
+                        return soft("str:null-or-ambiguous");
+                    }
+                    Expect::must(verbatim, "str:plain-verbatim")
+                }
+                TagC::Binary => {
+                    let mut ok = vec![verbatim];
+                    if let Some(Ok(s)) = decoded_utf8(sc.value) {
+                        ok.push(Got::S(s));
+                    }
+                    Expect::one_of(ok, true, "str:binary-tag")
+                }
+                _ => soft("str:other-tag"),
+            }
+        }
+        // ------------------------------------------------ bytes
+        Base::Bytes => {
+            if sc.tag == TagC::Binary {
+                match ref_b64(sc.value) {
+                    B64::Valid(b) => Expect::must(Got::Y(b), "bytes:binary-decoded"),
+                    B64::Invalid(_) => Expect::must_err("bytes:binary-invalid-base64"),
+                    B64::Unspecified(_) => Expect::any("bytes:binary-unspecified-blank"),
+                }
+            } else {
+                let mut ok = vec![Got::Y(sc.value.as_bytes().to_vec())];
+                if let B64::Valid(b) = ref_b64(sc.value) {
+                    ok.push(Got::Y(b));
+                }
+                Expect::one_of(ok, true, "bytes:scalar-without-binary-tag")
+            }
+        }
+        // ------------------------------------------------ untyped
+        Base::Val => {
+            let nullp = ref_null(sc.value, sc.style);
+            let vs = |s: &str| Got::V(Val::Str(s.to_string()));
+            let inference = || -> (Vec<Got>, bool) {
+                let u = ref_untyped_plain(sc.value, o.strict, o.legacy);
+                (u.allowed.iter().map(|i| Got::V(inferred_to_val(i))).collect(), u.definite)
+            };
+            let with_str = |mut v: Vec<Got>| {
+                let s = vs(sc.value);
+                if !v.contains(&s) {
+                    v.push(s);
+                }
+                v
+            };
+            match sc.tag {
+                TagC::Null => {
+                    if sc.value.is_empty() || sc.value == "~" || sc.value.eq_ignore_ascii_case("null") {
+                        Expect::must(Got::V(Val::Null), "untyped:null-tag")
+                    } else {
+                        Expect::one_of(vec![Got::V(Val::Null)], true, "untyped:null-tag-on-text")
+                    }
+                }
+                TagC::None => {
+                    if !plain {
+                        return Expect::must(vs(sc.value), "untyped:non-plain-is-string");
+                    }
+                    let (allowed, definite) = inference();
+                    if definite {
+                        let class = match &allowed[0] {
+                            Got::V(Val::Null) => "untyped:plain-null",
+                            Got::V(Val::Bool(_)) => "untyped:plain-bool",
+                            Got::V(Val::Int(_)) => "untyped:plain-int",
+                            Got::V(Val::F(_)) => "untyped:plain-float",
+                            _ => "untyped:plain-string",
+                        };
+                        Expect::must(allowed[0].clone(), class)
+                    } else {
+                        Expect::one_of(allowed, false, "untyped:plain-lenient-spelling")
+                    }
+                }
+                TagC::Str => {
+                    if !plain || nullp.is_no() {
+                        Expect::must(vs(sc.value), "untyped:str-tag")
+                    } else {
+                        Expect::one_of(vec![Got::V(Val::Null), vs(sc.value)], false, "untyped:str-tag-on-null")
+                    }
+                }
+                TagC::NonSpecific | TagC::Custom => {
+                    let ok = if plain { with_str(inference().0) } else { vec![vs(sc.value)] };
+                    Expect::one_of(ok, true, "untyped:application-tag")
+                }
+                TagC::Int | TagC::Float | TagC::Bool => {
+                    let mut ok = if plain { inference().0 } else { vec![] };
+                    match sc.tag {
+                        TagC::Int => {
+                            if let Some(r) = ref_int(sc.value, o.legacy) {
+                                for v in [r.to_i128(), r.alt_i128()].into_iter().flatten() {
+                                    ok.push(Got::V(Val::Int(v)));
+                                }
+                            }
+                        }
+                        TagC::Float => {
+                            if let Some(f) = ref_float(sc.value) {
+                                ok.push(Got::V(Val::F(f.f64_bits())));
+                                ok.push(vs(rs::canonical_nonfinite(f.f64_bits())));
+                            }
+                        }
+                        _ => {
+                            if let Some(b) = ref_bool(sc.value, o.strict).value() {
+                                ok.push(Got::V(Val::Bool(b)));
+                            }
+                        }
+                    }
+                    Expect::one_of(with_str(ok), true, "untyped:core-scalar-tag")
+                }
+                TagC::Binary => {
+                    if o.ignore_bin {
+                        let ok = if plain { with_str(inference().0) } else { vec![vs(sc.value)] };
+                        return Expect::one_of(ok, false, "untyped:binary-tag-ignored");
+                    }
+                    if plain && !nullp.is_no() {
+                        let mut ok = vec![Got::V(Val::Null)];
+                        if let Some(Ok(s)) = decoded_utf8(sc.value) {
+                            ok.push(vs(&s));
+                        }
+                        return Expect::one_of(ok, true, "untyped:binary-tag-on-null");
+                    }
+                    match ref_b64(sc.value) {
+                        B64::Valid(b) => match String::from_utf8(b) {
+                            Ok(s) => Expect::must(vs(&s), "untyped:binary-decoded"),
+                            Err(_) => Expect::must_err("untyped:binary-not-utf8"),
+                        },
+                        B64::Invalid(_) => Expect::must_err("untyped:binary-invalid-base64"),
+                        B64::Unspecified(_) => Expect::any("untyped:binary-unspecified-blank"),
+                    }
+                }
+            }
+        }
+    }
+}
+
+fn expect(t: &Tgt, sc: &Sc, o: Ob) -> Expect {
+    let inner = expect_base(t.base, sc, o);
+    if !t.opt {
+        return inner;
+    }
+    let text_nullish = sc.value.is_empty() || sc.value == "~" || sc.value.eq_ignore_ascii_case("null");
+    let n: Tri<()> = match sc.tag {
+        TagC::Null => {
+            if text_nullish {
+                Tri::Yes(())
+            } else {
+                Tri::Maybe(())
+            }
+        }
+        TagC::None => ref_null_option(sc.value, sc.style),
+        _ => {
+            if ref_null_option(sc.value, sc.style).is_no() {
+                Tri::No
+            } else {
+                Tri::Maybe(())
+            }
+        }
+    };
+    match n {
+        Tri::Yes(()) => Expect::must(Got::N, "option:null-is-none"),
+        Tri::No => inner,
+        Tri::Maybe(()) => {
+            let mut ok = inner.ok;
+            ok.push(Got::N);
+            Expect { ok, any_ok: inner.any_ok, err: inner.err, class: "option:maybe-null" }
+        }
+    }
+}
+
+// ------------------------------------------------------------------ judging
+
+enum Verdict {
+    Held,
+    Unspecified,
+    Violation { shape: &'static str, detail: String },
+}
+
+fn int_wrong_value_class(base: Base, got: &Got, value: &str, o: Ob) -> &'static str {
+    let Some(r) = ref_int(value, o.legacy) else { return "garbage" };
+    let (bits, lib_bits): (u32, u128) = match (base, got) {
+        (Base::I(b), Got::I(v)) => (b, *v as u128),
+        (Base::U(b), Got::U(v)) => (b, *v),
+        _ => return "other",
+    };
+    let mask = if bits >= 128 { u128::MAX } else { (1u128 << bits) - 1 };
+    let mut low = r.magnitude.low_u128();
+    if r.negative {
+        low = low.wrapping_neg();
+    }
+    if (low & mask) == (lib_bits & mask) {
+        return "wrapped";
+    }
+    let (min, max): (u128, u128) = match base {
+        Base::I(b) => {
+            let half = 1u128 << (b - 1);
+            (half.wrapping_neg(), half - 1)
+        }
+        _ => (0, mask),
+    };
+    if (lib_bits & mask) == (min & mask) || (lib_bits & mask) == (max & mask) {
+        return "saturated";
+    }
+    if let Some(alt) = ref_int(value, !o.legacy)
+        && (alt.to_i128().map(|v| v as u128) == Some(lib_bits) || alt.to_u128() == Some(lib_bits))
+    {
+        return "legacy-octal-option-misapplied";
+    }
+    "other"
+}
+
+fn int_rejected_class(base: Base, value: &str, o: Ob) -> String {
+    let Some(r) = ref_int(value, o.legacy) else { return "none".into() };
+    let radix = if r.radix == 10 { "decimal" } else { "nondecimal" };
+    let boundary = match base {
+        Base::I(b) => match r.to_i128() {
+            Some(v) if b == 128 && v == i128::MIN => "i128-min",
+            Some(v) if b < 128 && v == -(1i128 << (b - 1)) => "width-min",
+            Some(v) if b < 128 && v == (1i128 << (b - 1)) - 1 => "width-max",
+            Some(i128::MAX) => "width-max",
+            _ => "inner",
+        },
+        Base::U(b) => match r.to_u128() {
+            Some(v) if b < 128 && v == (1u128 << b) - 1 => "width-max",
+            Some(u128::MAX) => "width-max",
+            Some(0) => "zero",
+            _ => "inner",
+        },
+        _ => "inner",
+    };
+    format!("{radix}:{boundary}")
+}
+
+/// Which documented reading makes a plain scalar "not a string" (for signatures).
+fn ambiguity_reason(value: &str) -> String {
+    if ref_null(value, Style::Plain).is_yes() {
+        "null".into()
+    } else if ref_bool(value, false).is_yes() {
+        "bool".into()
+    } else if rs::int_is_documented(value, false) {
+        format!("int:{}", int_rejected_class(Base::I(128), value, ob(0)))
+    } else {
+        "float".into()
+    }
+}
+
+fn judge(e: &Expect, got: &Result<Got, String>) -> Verdict {
+    match got {
+        Ok(g) => {
+            if e.any_ok || e.ok.contains(g) {
+                if e.definite() { Verdict::Held } else { Verdict::Unspecified }
+            } else if e.ok.is_empty() {
+                Verdict::Violation { shape: "accepted", detail: format!("expected Err, library returned Ok({})", show_got(g)) }
+            } else {
+                Verdict::Violation {
+                    shape: "wrong-value",
+                    detail: format!(
+                        "library returned Ok({}), natural value(s): {}{}",
+                        show_got(g),
+                        e.ok.iter().map(show_got).collect::<Vec<_>>().join(" | "),
+                        if e.err { " (or Err)" } else { "" }
+                    ),
+                }
+            }
+        }
+        Err(kind) => {
+            if e.err {
+                if e.definite() { Verdict::Held } else { Verdict::Unspecified }
+            } else {
+                Verdict::Violation {
+                    shape: "rejected",
+                    detail: format!(
+                        "library returned Err({kind}), expected Ok({})",
+                        e.ok.iter().map(show_got).collect::<Vec<_>>().join(" | ")
+                    ),
+                }
+            }
+        }
+    }
+}
+
+/// A broken library can violate millions of cells; keep the first few witnesses per
+/// signature and only count the rest (the run still fails, evidence shows the totals).
+static REPORTED: std::sync::Mutex<BTreeMap<String, u64>> = std::sync::Mutex::new(BTreeMap::new());
+const WITNESSES_PER_SIGNATURE: u64 = 6;
+
+fn report(run: &Run, sig: &str, case: impl FnOnce() -> Value, detail: String) {
+    let n = {
+        let mut m = REPORTED.lock().unwrap();
+        let c = m.entry(sig.to_string()).or_insert(0);
+        *c += 1;
+        *c
+    };
+    if n <= WITNESSES_PER_SIGNATURE {
+        run.violation(sig, case(), detail);
+    }
+}
+
+fn flush_report_totals(run: &Run) {
+    for (sig, n) in REPORTED.lock().unwrap().iter() {
+        run.count(&format!("violating_cells/{sig}"), *n);
+    }
+}
+
+#[derive(Default)]
+struct Local {
+    evals: u64,
+    held: BTreeMap<&'static str, u64>,
+    unspec: BTreeMap<&'static str, u64>,
+    misc: BTreeMap<&'static str, u64>,
+    kinds: BTreeMap<String, u64>,
+}
+
+impl Local {
+    fn flush(&mut self, run: &Run) {
+        run.evals(self.evals);
+        for (k, v) in &self.held {
+            run.count(&format!("held/{k}"), *v);
+        }
+        for (k, v) in &self.unspec {
+            run.count(&format!("unspecified/{k}"), *v);
+        }
+        run.count_map(&self.misc);
+        for (k, v) in &self.kinds {
+            run.observe("error_kinds", k);
+            run.count(&format!("error_kind/{k}"), *v);
+        }
+        *self = Local::default();
+    }
+    fn bump(m: &mut BTreeMap<&'static str, u64>, k: &'static str) {
+        *m.entry(k).or_insert(0) += 1;
+    }
+}
+
+/// Execute and judge one cell. Returns true when a verdict (held/unspecified) was reached.
+#[allow(clippy::too_many_arguments)]
+fn cell(run: &Run, loc: &mut Local, t: &Tgt, sc: &Sc, e: &Expect, doc: &str, pos: Pos, obits: u8, sample_kind: bool) {
+    loc.evals += 1;
+    let r = vcore::obs::catch(|| run_lib(t, doc, pos, mk_opts(obits)));
+    let case = || {
+        json!({"doc": doc, "pos": pos_name(pos), "target": t.name, "opts": obits,
+               "value": sc.value, "style": style_name(sc.style), "tag": tag_name(sc.tag)})
+    };
+    let got: Result<Got, String> = match r {
+        Err(p) => {
+            report(run, &format!("C06:panic:{}", vcore::obs::panic_site(&p)), case, p);
+            return;
+        }
+        Ok(Ok(Some(g))) => {
+            Local::bump(&mut loc.misc, "library_ok");
+            Ok(g)
+        }
+        Ok(Ok(None)) => {
+            run.inconclusive("embedded scalar: container did not deliver exactly one entry");
+            return;
+        }
+        Ok(Err(err)) => {
+            Local::bump(&mut loc.misc, "library_err");
+            if sc.style == Style::Folded && matches!(err.without_snippet(), Error::FoldedBlockScalarMustIndentContent { .. }) {
+                // event-layer rule about folded scalars starting in column 0, not scalar interpretation
+                Local::bump(&mut loc.unspec, "folded-block-at-column-0-rejected-before-interpretation");
+                return;
+            }
+            let need_kind = sample_kind || !e.err;
+            if need_kind {
+                let k = vcore::errs::kind(&err);
+                if sample_kind {
+                    *loc.kinds.entry(k.clone()).or_insert(0) += 1;
+                }
+                Err(k)
+            } else {
+                Err(String::new())
+            }
+        }
+    };
+    match judge(e, &got) {
+        Verdict::Held => Local::bump(&mut loc.held, e.class),
+        Verdict::Unspecified => Local::bump(&mut loc.unspec, e.class),
+        Verdict::Violation { shape, detail } => {
+            let fam = family_of(t.base);
+            let extra = match (fam, shape, &got) {
+                ("int", "wrong-value" | "accepted", Ok(g)) => {
+                    format!(":{}", int_wrong_value_class(t.base, g, sc.value, ob(obits)))
+                }
+                ("int", "rejected", _) => format!(":{}", int_rejected_class(t.base, sc.value, ob(obits))),
+                (_, "accepted", _) if e.class.ends_with("no-schema-needs-quoting") => {
+                    format!(":{}", ambiguity_reason(sc.value))
+                }
+                _ => String::new(),
+            };
+            let optp = if t.opt && !e.class.starts_with("option:") { "option-of-" } else { "" };
+            let sig = format!("C06:{optp}{}:{shape}{extra}", e.class);
+            report(run, &sig, case, detail);
+        }
+    }
+}
+
+// ------------------------------------------------------------------ documents
+
+fn scalar_node(text: &str, style: Style, tag: Option<&str>) -> Node {
+    // folded is rendered with clip chomping (value gains the final line break), literal with strip
+    let text = if style == Style::Folded { format!("{text}\n") } else { text.to_string() };
+    Node::Scalar { text, style, tag: tag.map(|s| s.to_string()), anchor: None }
+}
+
+fn wrap(n: Node, pos: Pos) -> Node {
+    match pos {
+        Pos::Root => n,
+        Pos::Seq => Node::seq(vec![n]),
+        Pos::Map => Node::map(vec![(Node::plain("k"), n)]),
+    }
+}
+
+fn scalar_of(r: &RNode, pos: Pos) -> Option<&RNode> {
+    match (pos, r) {
+        (Pos::Root, n @ RNode::Scalar { .. }) => Some(n),
+        (Pos::Seq, RNode::Seq { items, .. }) if items.len() == 1 => Some(&items[0]),
+        (Pos::Map, RNode::Map { entries, .. }) if entries.len() == 1 => Some(&entries[0].1),
+        _ => None,
+    }
+}
+
+/// Render the scalar at `pos` and confirm with the raw parser that the document
+/// is exactly that scalar (value, style, tag). Returns (doc, value as parsed).
+fn build_doc(text: &str, style: Style, tag: Option<&str>, pos: Pos, ro: &RenderOpts) -> Option<(String, String)> {
+    let n = wrap(scalar_node(text, style, tag), pos);
+    let (doc, r) = render_checked(&n, ro)?;
+    if doc.starts_with('\u{FEFF}') {
+        // a leading BOM belongs to the stream (the library strips one), not to the scalar
+        return None;
+    }
+    match scalar_of(&r, pos)? {
+        RNode::Scalar { value, .. } => Some((doc, value.clone())),
+        _ => None,
+    }
+}
+
+/// All cells of one (token, style, tag): every position × target × option vector.
+#[allow(clippy::too_many_arguments)]
+fn run_combo(
+    run: &Run,
+    loc: &mut Local,
+    tok: &Token,
+    style: Style,
+    tagc: TagC,
+    tagsrc: Option<&str>,
+    positions: &[Pos],
+    opt_vectors: &[u8],
+    ro: &RenderOpts,
+) {
+    let mut docs: Vec<(Pos, String)> = Vec::with_capacity(3);
+    let mut value: Option<String> = None;
+    for &pos in positions {
+        match build_doc(&tok.text, style, tagsrc, pos, ro) {
+            Some((doc, v)) => {
+                if let Some(prev) = &value
+                    && *prev != v
+                {
+                    run.inconclusive("generator-invalid: scalar value differs between positions");
+                    continue;
+                }
+                value = Some(v);
+                docs.push((pos, doc));
+            }
+            None => {
+                Local::bump(&mut loc.misc, "generator_invalid_documents");
+                run.inconclusive(match style {
+                    Style::Plain => "generator-invalid: token cannot be written as this plain scalar (raw parser disagrees)",
+                    Style::Single | Style::Double => "generator-invalid: quoted rendering not confirmed by the raw parser",
+                    _ => "generator-invalid: block rendering not confirmed by the raw parser",
+                });
+            }
+        }
+    }
+    let Some(value) = value else { return };
+    Local::bump(&mut loc.misc, "scalar_documents_confirmed_by_raw_parser");
+    let sc = Sc { value: &value, style, tag: tagc };
+    for t in TARGETS {
+        let rel = relevant(t, tok.family);
+        let mask = oracle_option_mask(t.base);
+        let mut memo: [Option<Expect>; 16] = Default::default();
+        for &obits in opt_vectors {
+            let slot = (obits & mask) as usize;
+            if memo[slot].is_none() {
+                memo[slot] = Some(expect(t, &sc, ob(obits & mask)));
+            }
+            let e = memo[slot].as_ref().unwrap();
+            for (i, (pos, doc)) in docs.iter().enumerate() {
+                let first = i == 0 && obits == opt_vectors[0];
+                cell(run, loc, t, &sc, e, doc, *pos, obits, first);
+                if rel {
+                    Local::bump(&mut loc.misc, "nontrivial_cells_executed");
+                    if first {
+                        run.nontrivial(fnv_parts(&[
+                            value.as_bytes(),
+                            style_name(style).as_bytes(),
+                            tag_name(tagc).as_bytes(),
+                            t.name.as_bytes(),
+                        ]));
+                    }
+                }
+            }
+        }
+    }
+}
+
+// ------------------------------------------------------------------ base64 workloads
+
+const B64_SWEEP_ALPHABET: &[char] = &['A', 'B', '/', '+', '=', 'Z', 'a', '0', ' ', '\n', '?', '-'];
+
+fn nth_string(mut idx: usize, len: usize) -> String {
+    let mut s = String::with_capacity(len);
+    for _ in 0..len {
+        s.push(B64_SWEEP_ALPHABET[idx % B64_SWEEP_ALPHABET.len()]);
+        idx /= B64_SWEEP_ALPHABET.len();
+    }
+    s
+}
+
+const T_BYTES: Tgt = Tgt { name: "Bytes", base: Base::Bytes, opt: false };
+const T_STRING: Tgt = Tgt { name: "String", base: Base::String, opt: false };
+const T_VAL: Tgt = Tgt { name: "Val", base: Base::Val, opt: false };
+
+fn b64_cells(run: &Run, loc: &mut Local, payload: &str, style: Style, nontrivial: bool, ro: &RenderOpts) {
+    let Some((doc, value)) = build_doc(payload, style, Some("!!binary"), Pos::Root, ro) else {
+        Local::bump(&mut loc.misc, "generator_invalid_documents");
+        return;
+    };
+    let sc = Sc { value: &value, style, tag: TagC::Binary };
+    for (t, obits) in [(&T_BYTES, 0u8), (&T_STRING, 0), (&T_VAL, 0), (&T_STRING, 8), (&T_BYTES, 8)] {
+        let e = expect(t, &sc, ob(obits));
+        cell(run, loc, t, &sc, &e, &doc, Pos::Root, obits, false);
+    }
+    match ref_b64(&value) {
+        B64::Valid(_) => Local::bump(&mut loc.misc, "b64_reference_valid"),
+        B64::Invalid(why) => {
+            Local::bump(&mut loc.misc, "b64_reference_invalid");
+            Local::bump(&mut loc.misc, why);
+        }
+        B64::Unspecified(_) => Local::bump(&mut loc.misc, "b64_reference_unspecified"),
+    }
+    if nontrivial {
+        run.nontrivial(fnv_parts(&[value.as_bytes(), style_name(style).as_bytes(), b"b64"]));
+    }
+}
+
+/// Spread a base64 text over blanks / line breaks the way documents do.
+fn decorate_b64(rng: &mut Rng, enc: &str) -> (String, Style) {
+    match rng.below(4) {
+        0 => (enc.to_string(), Style::Plain),
+        1 => {
+            let mut s = String::new();
+            for (i, c) in enc.chars().enumerate() {
+                if i > 0 && rng.chance(1, 9) {
+                    s.push(*rng.pick(&[' ', '\n', '\t', '\r']));
+                }
+                s.push(c);
+            }
+            (s, Style::Double)
+        }
+        2 => {
+            let w = *rng.pick(&[4usize, 16, 60, 76]);
+            let cs: Vec<char> = enc.chars().collect();
+            let lines: Vec<String> = cs.chunks(w).map(|c| c.iter().collect()).collect();
+            (lines.join("\n"), Style::Literal)
+        }
+        _ => (enc.to_string(), Style::Single),
+    }
+}
+
+// ------------------------------------------------------------------ replay
+
+fn replay(run: &Run, case: &Value) {
+    let doc = case["doc"].as_str().unwrap_or("");
+    let pos = match case["pos"].as_str() {
+        Some("seq") => Pos::Seq,
+        Some("map") => Pos::Map,
+        _ => Pos::Root,
+    };
+    let tname = case["target"].as_str().unwrap_or("");
+    let obits = case["opts"].as_u64().unwrap_or(0) as u8;
+    let Some(t) = TARGETS.iter().find(|t| t.name == tname) else {
+        eprintln!("harness error: unknown target {tname}");
+        std::process::exit(2);
+    };
+    // everything about the scalar is re-derived from the raw parser
+    let Some(root) = reftree::parse_one(doc) else {
+        eprintln!("harness error: replay document is not one YAML document for the raw parser");
+        std::process::exit(2);
+    };
+    let Some(RNode::Scalar { value, style, tag, .. }) = scalar_of(&root, pos) else {
+        eprintln!("harness error: replay document has no scalar at the recorded position");
+        std::process::exit(2);
+    };
+    let Some(tagc) = tag_of_source(tag.as_deref()) else {
+        eprintln!("harness error: replay scalar has a tag outside the modelled set");
+        std::process::exit(2);
+    };
+    let sc = Sc { value, style: reftree::style_of(*style), tag: tagc };
+    let e = expect(t, &sc, ob(obits));
+    eprintln!("replay: value={value:?} style={:?} tag={tagc:?} target={} opts={obits:#06b} expectation={e:?}", sc.style, t.name);
+    let mut loc = Local::default();
+    cell(run, &mut loc, t, &sc, &e, doc, pos, obits, true);
+    loc.flush(run);
+}
+
+// ------------------------------------------------------------------ main
+
+fn main() {
+    let run = Run::from_args("C06");
+    if let Some(rep) = run.is_replay() {
+        replay(&run, &rep["case"]);
+        run.finish(Finish::new("replay"));
+    }
+    let tier = run.tier;
+    let ro = RenderOpts::new();
+    let all_opts: Vec<u8> = (0..16).collect();
+
+    // ---- 1. exhaustive product over the fixed corpus
+    let mut corpus = scalarcorpus::tokens();
+    // debugging knob (not used by ./check): thin the corpus to every k-th token
+    let thin: usize = std::env::var("C06_THIN").ok().and_then(|s| s.parse().ok()).unwrap_or(1);
+    if thin > 1 {
+        corpus = corpus.into_iter().step_by(thin).collect();
+        run.note(format!("C06_THIN={thin}: corpus thinned, run is not the registered workload"));
+    }
+    run.count("corpus_tokens", corpus.len() as u64);
+    for f in [Family::Int, Family::Float, Family::Bool, Family::Null, Family::Char, Family::Str, Family::B64] {
+        run.count(&format!("corpus_tokens/{}", f.name()), corpus.iter().filter(|t| t.family == f).count() as u64);
+    }
+    let quick_styles = [Style::Plain, Style::Double];
+    let quick_tags = [TagC::None, TagC::Str, TagC::Binary];
+    par_range(corpus.len(), |i| {
+        let tok = &corpus[i];
+        let mut loc = Local::default();
+        let mut combo_idx = 0usize;
+        for &style in STYLES {
+            for &(tagc, tagsrc) in TAGS {
+                combo_idx += 1;
+                let in_quick = quick_styles.contains(&style) && quick_tags.contains(&tagc);
+                // quick: the DESIGN sub-product, plus one rotating other (style, tag) per token so that
+                // every combination is visited by some tokens at every run
+                let take = tier == Tier::Thorough || in_quick || combo_idx % 45 == i % 45;
+                if !take {
+                    continue;
+                }
+                run_combo(&run, &mut loc, tok, style, tagc, tagsrc, POSITIONS, &all_opts, &ro);
+            }
+        }
+        if i % 997 == 0 {
+            run.sample(|| json!({"part": "corpus", "token": tok.text, "family": tok.family.name()}));
+        }
+        loc.flush(&run);
+    });
+
+    // ---- 2. seeded tokens beyond the corpus
+    let n_random = tier.pick(12_000, 150_000);
+    par_range(n_random, |i| {
+        let mut rng = Rng::stream(run.seed, i as u64);
+        let tok = scalarcorpus::random_token(&mut rng);
+        let mut loc = Local::default();
+        run_combo(&run, &mut loc, &tok, Style::Plain, TagC::None, None, POSITIONS, &all_opts, &ro);
+        let style = *rng.pick(STYLES);
+        let (tagc, tagsrc) = *rng.pick(TAGS);
+        if !(style == Style::Plain && tagc == TagC::None) {
+            run_combo(&run, &mut loc, &tok, style, tagc, tagsrc, &[*rng.pick(POSITIONS)], &all_opts, &ro);
+        }
+        Local::bump(&mut loc.misc, "random_tokens");
+        if i % 2999 == 0 {
+            run.sample(|| json!({"part": "random", "token": tok.text, "family": tok.family.name()}));
+        }
+        loc.flush(&run);
+    });
+    // double-rounding witnesses (seeded): f32 must be rounded once
+    let n_dr = tier.pick(400, 4000);
+    par_range(n_dr, |i| {
+        let mut rng = Rng::stream(run.seed ^ 0xD0B1E, i as u64);
+        let mut loc = Local::default();
+        for text in scalarcorpus::double_rounding_witnesses(&mut rng, 2) {
+            let tok = Token { text, family: Family::Float };
+            run_combo(&run, &mut loc, &tok, Style::Plain, TagC::None, None, &[Pos::Root], &[0], &ro);
+            Local::bump(&mut loc.misc, "double_rounding_witnesses");
+        }
+        loc.flush(&run);
+    });
+
+    // ---- 3. base64: exhaustive short strings over the 12-symbol alphabet
+    let max_len = tier.pick(5usize, 6);
+    let k = B64_SWEEP_ALPHABET.len();
+    for len in 0..=max_len {
+        let n = k.pow(len as u32);
+        par_batched(&run, n, 4096, |idx, loc| {
+            let s = nth_string(idx, len);
+            let cleaned = s.chars().filter(|c| !matches!(c, ' ' | '\n')).count();
+            let near = matches!(cleaned % 4, 0 | 1 | 3);
+            b64_cells(&run, loc, &s, Style::Double, near, &ro);
+            if s.chars().all(|c| c != '\n') {
+                b64_cells(&run, loc, &s, Style::Plain, near, &ro);
+            }
+            Local::bump(&mut loc.misc, "b64_sweep_strings");
+            if idx % 100_003 == 0 {
+                run.sample(|| json!({"part": "b64-sweep", "payload": s}));
+            }
+        });
+    }
+
+    // ---- 4. base64: encode -> decode
+    par_batched(&run, 65_536 + 256 + 1, 2048, |idx, loc| {
+        let bytes: Vec<u8> = if idx == 0 {
+            vec![]
+        } else if idx <= 256 {
+            vec![(idx - 1) as u8]
+        } else {
+            let v = idx - 257;
+            vec![(v >> 8) as u8, v as u8]
+        };
+        let enc = b64_encode(&bytes);
+        let style = if enc.is_empty() { Style::Double } else { Style::Plain };
+        b64_cells(&run, loc, &enc, style, true, &ro);
+        Local::bump(&mut loc.misc, "b64_roundtrip_arrays_len_le_2");
+    });
+    let n_b64_random = tier.pick(20_000, 300_000);
+    par_range(n_b64_random, |i| {
+        let mut rng = Rng::stream(run.seed ^ 0xB64, i as u64);
+        let len = if rng.chance(1, 8) { rng.range(3, 400) } else { rng.range(3, 48) };
+        let bytes: Vec<u8> = if rng.bool() {
+            (0..len).map(|_| rng.next_u64() as u8).collect()
+        } else {
+            // valid UTF-8 so that the String target decodes too
+            let pool = ['a', 'z', '0', ' ', 'é', '日', '😀', '\n', '~'];
+            let mut s = String::new();
+            while s.len() < len {
+                s.push(*rng.pick(&pool));
+            }
+            s.into_bytes()
+        };
+        let mut enc = b64_encode(&bytes);
+        if rng.chance(1, 3) {
+            // one edit: the reference decides whether the result is still canonical
+            let cs: Vec<char> = enc.chars().collect();
+            let pos = if rng.bool() { cs.len() - 1 - rng.below(cs.len().min(4)) } else { rng.below(cs.len()) };
+            let mut n = cs.clone();
+            let c = *rng.pick(&['A', 'B', 'Q', 'g', 'w', '/', '+', '=', '-', '_', '9']);
+            match rng.below(3) {
+                0 => n[pos] = c,
+                1 => n.insert(pos, c),
+                _ => {
+                    n.remove(pos);
+                }
+            }
+            enc = n.into_iter().collect();
+            if enc.is_empty() {
+                return;
+            }
+        }
+        let (payload, style) = decorate_b64(&mut rng, &enc);
+        let mut loc = Local::default();
+        b64_cells(&run, &mut loc, &payload, style, true, &ro);
+        Local::bump(&mut loc.misc, "b64_random_payloads");
+        if i % 4999 == 0 {
+            run.sample(|| json!({"part": "b64-random", "payload": payload, "style": style_name(style)}));
+        }
+        loc.flush(&run);
+    });
+
+    flush_report_totals(&run);
+    let styles_scope = if tier == Tier::Quick {
+        "{plain, double} x {no tag, !!str, !!binary} (plus, per token, one rotating other (style, tag) pair out of the full 5 x 9)"
+    } else {
+        "{plain, double, single, literal(strip), folded(clip)} x {no tag, !!str, !!binary, !!int, !!float, !!bool, !!null, !, !custom}"
+    };
+    let scope = format!(
+        "(1) every token of the fixed corpus ({} tokens: every width boundary -2..+1 for 8/16/32/64/128 bits signed and unsigned and magnitudes >= 2^128, in radix 10/16/8/2 and legacy-octal spelling, x sign none/+/- x 11 decorations (separators, leading zeros, prefix and digit case); all casings of y/n/yes/no/on/off/true/false/null; float forms; char and string edge cases; base64 payloads) x {styles_scope} x positions {{root, sequence item, mapping value}} x {} targets x all 16 option vectors (strict_booleans, no_schema, legacy_octal_numbers, ignore_binary_tag_for_string); (2) every string of length <= {max_len} over the 12 symbols A B / + = Z a 0 SP LF ? - as a !!binary payload (double-quoted, and plain where the raw parser confirms it) into Bytes/String/Val; (3) base64 encodings of all byte arrays of length <= 2",
+        corpus.len(),
+        TARGETS.len()
+    );
+    let fin = Finish::new(
+        "a cell (scalar value, style, tag, target) is non-trivial when the token's corpus family is in, or one edit away from, the grammar of the requested target (int tokens for integer targets, int+float tokens for float targets, bool tokens for bool, single/near-single characters for char, base64-like payloads for bytes, null-likes additionally for Option<_>, every token for String / deserialize_str / untyped); distinct by hash(value, style, tag, target) - each such cell is additionally executed at up to 3 positions x 16 option vectors (counter nontrivial_cells_executed); base64 sweep strings count when their non-blank length is within one of a multiple of 4",
+    )
+    .exhaustive(scope)
+    .assume("raw saphyr-parser event stream is the ground truth for the scalar's value, style and tag in every generated document")
+    .assume("angle_conversions = false (robotics feature compiled in, switched off)")
+    .assume("decimal float reference values come from Rust's correctly rounded str::parse::<f32/f64> on the grammar-checked text (independent of the library's acceptance logic, not of the rounding routine)")
+    .min_nontrivial(if tier == Tier::Quick { 100_000 } else { 400_000 });
+    run.finish(fin);
+}
+
+/// `par_range` over `n` indices in batches of `batch`, each batch with its own
+/// `Local` counter set that is flushed once (keeps the shared counter lock cold
+/// for very short cases).
+fn par_batched<F: Fn(usize, &mut Local) + Sync>(run: &Run, n: usize, batch: usize, f: F) {
+    let chunks = n.div_ceil(batch);
+    par_range(chunks, |c| {
+        let mut loc = Local::default();
+        for idx in c * batch..((c + 1) * batch).min(n) {
+            f(idx, &mut loc);
+        }
+        loc.flush(run);
+    });
+}
